@@ -135,8 +135,8 @@ def date_cases(recs):
 def run(chk):
     quick = chk.tier == "quick"
     chk.rule = ("(a) every grid date and the listed calendar days of 2015-2030 (TLC-emitted, ambiguity predicate applied) at 4 places; (b) degree-12 "
-                "synthesis at 14 places (both poles incl. 850 km, equator/prime meridian, +-180, heights -1..850 km) x dates incl. the epoch "
-                "boundaries 2019.9/2020.0/2024.9/2025.0/2030.0 x {method, constructor, height profile on one object}; (c) the mirror against TLC's exact Legendre values; distinct = "
+                "synthesis at 14 places (both poles incl. 850 km, equator/prime meridian, +-180, heights -1..850 km) x dates (quick: 6 incl. the epoch "
+                "boundaries 2019.9/2020.0/2024.9/2025.0/2030.0; thorough: all 151 grid dates) x {method, constructor, height profile on one object}; (c) the mirror against TLC's exact Legendre values; distinct = "
                 "distinct (date, place, route); none trivial")
     chk.assume("mirror = fractions.Fraction transcription of the WmmSynth DEFINITION operators, checked against TLC on degree <= 6; trigonometry of the "
                "longitude, sqrt of the Schmidt factors and the WGS84 geodetic->geocentric conversion in floats; tolerance 1e-5 nT")
@@ -149,8 +149,9 @@ def run(chk):
     if r2.violated:
         chk.fail("C14|spec|%s" % r2.violated, {"tlc": r2.output[-2000:]})
     core.merge(chk, [mirror_check(r2.out_records)])
-    dates = [20150, 20173, 20199, 20200, 20228, 20249, 20250, 20271, 20300] if not quick else [20173, 20199, 20200, 20249, 20250, 20300]
-    places = PLACES if not quick else PLACES[:9]
+    # thorough: every date of the tenth-of-a-year grid 2015.0 .. 2030.0 (151 dates) at all 14 places
+    dates = list(range(20150, 20301)) if not quick else [20173, 20199, 20200, 20249, 20250, 20300]
+    places = PLACES if not quick else PLACES[:9] + [PLACES[11]]      # incl. the place below the ellipsoid (h = -1 km)
     jobs = [([d], places) for d in dates]
     import multiprocessing as mp
     with mp.get_context("fork").Pool(16) as pool:
